@@ -237,10 +237,10 @@ void DocumentBuilder::proc_edge_begin(const char* from, const char* to, const bo
 
     if (!resolve(from, fid) || (!fid.get_type().is_location() && !fid.get_type().is_branchpoint())) {
         handle_error(TypeException{"$No_such_location_or_branchpoint_(source)"});
-        push_frame(frame_t::create(frames.top()));  // dummy frame for upcoming popFrame
+        discardEdge();
     } else if (!resolve(to, tid) || (!tid.get_type().is_location() && !tid.get_type().is_branchpoint())) {
         handle_error(TypeException{"$No_such_location_or_branchpoint_(destination)"});
-        push_frame(frame_t::create(frames.top()));  // dummy frame for upcoming popFrame
+        discardEdge();
     } else {
         currentEdge = &currentTemplate->add_edge(fid, tid, control, actname);
         currentEdge->guard = make_constant(1);
@@ -251,13 +251,34 @@ void DocumentBuilder::proc_edge_begin(const char* from, const char* to, const bo
     }
 }
 
-void DocumentBuilder::proc_edge_end(const char* from, const char* to) { popFrame(); }
+/** The edge could not be created: its labels must neither end up on the previous edge nor crash. */
+void DocumentBuilder::discardEdge()
+{
+    discardedEdge = edge_t{};
+    currentEdge = &discardedEdge;
+    push_frame(currentEdge->select = frame_t::create(frames.top()));  // frame for upcoming popFrame
+}
 
-void DocumentBuilder::proc_select(const char* id) { addSelectSymbolToFrame(id, currentEdge->select, position); }
+void DocumentBuilder::proc_edge_end(const char* from, const char* to)
+{
+    popFrame();
+    currentEdge = nullptr;
+}
+
+void DocumentBuilder::proc_select(const char* id)
+{
+    if (!currentEdge) {
+        typeFragments.pop();
+        handle_error(TypeException("Must be declared inside of an edge"));
+        return;
+    }
+    addSelectSymbolToFrame(id, currentEdge->select, position);
+}
 
 void DocumentBuilder::proc_guard()
 {
     if (!currentEdge) {
+        fragments.pop();
         handle_error(TypeException("Must be declared inside of an edge"));
         return;
     }
@@ -269,6 +290,7 @@ void DocumentBuilder::proc_guard()
 void DocumentBuilder::proc_sync(synchronisation_t type)
 {
     if (!currentEdge) {
+        fragments.pop();
         handle_error(TypeException("Must be declared inside of an edge"));
         return;
     }
@@ -280,6 +302,7 @@ void DocumentBuilder::proc_sync(synchronisation_t type)
 void DocumentBuilder::proc_update()
 {
     if (!currentEdge) {
+        fragments.pop();
         handle_error(TypeException("Must be declared inside of an edge"));
         return;
     }
@@ -291,6 +314,7 @@ void DocumentBuilder::proc_update()
 void DocumentBuilder::proc_prob()
 {
     if (!currentEdge) {
+        fragments.pop();
         handle_error(TypeException("Must be declared inside of an edge"));
         return;
     }
